@@ -46,6 +46,11 @@ var yOperands = []yOperand{
 	{"convliteral", "int64(7)"},
 	{"stringcat", "\"v\" + fmt.Sprint(x)"},
 	{"sliceexpr", "a[:1]"},
+	{"namedfunccall", "nh(7)"},
+	{"namedfieldcall", "s.nh(7)"},
+	{"convcall", "int64(hook(7))"},
+	{"namedconv", "myInt(7)"},
+	{"parenliteral", "(7)"},
 }
 
 var yPositions = []string{"first", "plain", "loopfirst", "whilefirst", "afterif", "blockhead", "forpost", "case", "afterloop", "twice"}
@@ -60,10 +65,20 @@ import (
 
 type pt struct{ a, b int }
 
+type myInt int
+
+// hookT: a named function type; calling a value of it looks like a conversion T(x)
+type hookT func(int) int
+
 type holder struct {
 	f    int
 	hook func(int) int
+	nh   hookT
 }
+
+func mkHook(c *rt.Ctx) func(int) int { return func(n int) int { c.X(97, n); return n } }
+
+func newHolder(c *rt.Ctx) *holder { return &holder{f: 1, hook: mkHook(c), nh: hookT(mkHook(c))} }
 
 func (h *holder) get() int { return h.f * 10 }
 
@@ -102,8 +117,9 @@ func yexprText(id string, op yOperand, pos string) string {
 	decl := func() {
 		w(1, "x := 1")
 		w(1, "hook := func(n int) int { c.X(96, n*x); return n * x }")
-		w(1, "s := &holder{f: 1, hook: hook}")
-		w(1, "_ = hook")
+		w(1, "nh := hookT(hook)")
+		w(1, "s := &holder{f: 1, hook: hook, nh: nh}")
+		w(1, "_, _ = hook, nh")
 		w(1, "a := []int{1, 2}")
 		w(1, "var i any = 1")
 		w(1, "p := &x")
@@ -113,12 +129,12 @@ func yexprText(id string, op yOperand, pos string) string {
 	switch pos {
 	case "first": // the very first statement of the body after the declarations' thunk? no: nothing before it at all
 		// state lives in parameters of an inner literal so that the yield is the first statement
-		w(1, "return func(x int, s *holder, a []int, i any, p *int) Iter[any] {")
+		w(1, "return func(x int, s *holder, a []int, i any, p *int, hook func(int) int, nh hookT) Iter[any] {")
 		w(2, "%s", y)
 		w(2, "%s", bump)
 		w(2, "%s", y)
 		w(2, "return nil")
-		w(1, "}(1, &holder{f: 1}, []int{1, 2}, any(1), new(int))")
+		w(1, "}(1, newHolder(c), []int{1, 2}, any(1), new(int), mkHook(c), hookT(mkHook(c)))")
 		w(0, "}")
 	case "plain":
 		decl()
